@@ -40,6 +40,9 @@ def gen(rng, tier):
         # not at the next reconnect tick: every line handed off in between is counted conn_down_no_spool)
         cases.append({"scenario": "repoint_blackholed", "route": rng.choice(["sendAllMatch", "sendFirstMatch"]), "connbuf": rng.choice([10, 1000]),
                       "iobuf": rng.choice([4096, 65536]), "n": 20000, "size": 1000, "pace": 0})
+        # the admin re-points a destination to an endpoint whose TCP handshake hangs: only the update call may wait for the connect
+        cases.append({"scenario": "repoint_hung", "route": rng.choice(["sendAllMatch", "sendFirstMatch"]), "connbuf": 1000, "iobuf": 65536,
+                      "n": 1000, "size": 60, "pace": rng.choice([0, 50])})
         cases.append({"scenario": "close_then_traffic", "route": "sendAllMatch", "connbuf": rng.choice([100, 1000, 30000]), "iobuf": 65536,
                       "n": 1000, "size": 60, "pace": rng.choice([0, 50]), "reconn_ms": 2500})
     return cases
